@@ -5,7 +5,8 @@
    (mailbox, uid, SELECT instance).  Only statements. *)
 From PV Require Import Base.Prelude Wire.SeqSet.
 From PV Require Import UidRecent.Model UidRecent.MapLemmas UidRecent.UidProofs
-  UidRecent.RecentInv UidRecent.RecentProofs UidRecent.RecentTrace UidRecent.Witness.
+  UidRecent.RecentInv UidRecent.RecentProofs UidRecent.RecentTrace UidRecent.Witness
+  UidRecent.Maildir UidRecent.MaildirProofs.
 
 Local Open Scope N_scope.
 
@@ -74,7 +75,7 @@ Print Assumptions C17_stored_recent_survives.
 (* ... and the first read-write SELECT claims exactly the stored ones: its
    RECENT count, its recent set, and no bit stays stored *)
 Theorem C17_first_rw_select_claims : forall st s nm ch i b,
-  find_box st nm = Some (i, b) ->
+  find_box st nm = Some (i, b) -> box_ro st i = false ->
   exists sl' b',
     snd (step st (Select s nm false) ch)
       = OSelect i false (nlen (b_msgs b)) (nlen (stored_recent b)) (b_max b + 1) /\
@@ -103,7 +104,8 @@ Print Assumptions C17_stored_recent_survives_run.
 Theorem C17_arrival_claimed_by_first_rw_select : forall i tr st b m s nm ch b' m',
   full st -> no_rw_select i st tr ->
   lookup i (boxes st) = Some b -> In m (b_msgs b) -> m_recent m = true ->
-  find_box (run st tr) nm = Some (i, b') -> In m' (b_msgs b') -> m_uid m' = m_uid m ->
+  find_box (run st tr) nm = Some (i, b') -> box_ro (run st tr) i = false ->
+  In m' (b_msgs b') -> m_uid m' = m_uid m ->
   let st2 := fst (step (run st tr) (Select s nm false) ch) in
   exists sl' b2,
     snd (step (run st tr) (Select s nm false) ch)
@@ -182,3 +184,18 @@ Theorem C17_two_rw_witness :
   nth_error (outs (w_two_rw 3)) 3 = Some OBadChoice.
 Proof. split; [exact w_two_rw_1|exact (proj1 w_two_rw_bad)]. Qed.
 Print Assumptions C17_two_rw_witness.
+
+(* ------------------------------------------------------------- maildir
+   new/ is the stored bit, claim_recent (new/ -> cur/) clears every bit; with
+   the label [Adopt] and per-connection selected sets ([shared = false]) the
+   invariant holds for the maildir instance as well. *)
+Theorem C17_maildir_inv_recent : forall tr i u,
+  let st := run (init_cfg 0 false) tr in
+  (length (holders st i u) + stored_bit st i u <= 1)%nat.
+Proof. exact (inv_recent_reachable 0 false). Qed.
+Print Assumptions C17_maildir_inv_recent.
+
+Theorem C17_maildir_claim_refines : forall d,
+  abs (md_claim d) = mkBox (b_max (abs d)) (map clear_recent (b_msgs (abs d))) (b_log (abs d)).
+Proof. exact abs_claim. Qed.
+Print Assumptions C17_maildir_claim_refines.
